@@ -181,6 +181,8 @@ def run(tier):
         specs = [s for s in specs if s[0] != "update_at"] + [("update_at", ["a"], corpus.LENS_QUICK[:1], 2, 3)]
     specs.append(("ellscalar", ["a"], [corpus.LENS_QUICK[0]], 1, 1))
     recs = corpus.generate(rep, specs, mode="short", timeout=1500 if tier == "quick" else 3000)
+    if tier == "thorough":
+        recs = corpus.cap(recs, 40000)
     rep.exhaustive = True
     if tier == "quick":
         keep = {"elementwise": 12, "get_at": 9, "id": 6, "update_at": 10, "preserve": 3, "argfind": 3}
